@@ -284,6 +284,7 @@ func udpRequestReply(ctx context.Context, conn net.Conn, request []byte,
 		}
 
 		if t != tid {
+			err = ErrParse
 			continue
 		}
 
